@@ -6,7 +6,7 @@
    facts_fixed are the call-site facts of the repaired FileProxy.flush (DESIGN D13). *)
 From RichModel Require Import Prelude Color Style AnsiDecode FileProxy SpecDecode.
 From RichGen Require AnsiRegex SgrMap FileProxyFacts.
-From RichProofs Require Import AnsiDecodeP FileProxyP AnsiDecodeP2 AnsiDecodeP3 AnsiDecodeP4 AnsiDecodeP5 AnsiDecodeP6.
+From RichProofs Require Import AnsiDecodeP FileProxyP AnsiDecodeP2 AnsiDecodeP3 AnsiDecodeP4 AnsiDecodeP5 AnsiDecodeP6 AnsiDecodeP7.
 
 (* ---- ties to /repo: the scanners were written for exactly these patterns; the call sites of
    console.print in FileProxy.write / flush are the repaired ones (this one fails on rich 9.10.0 as
@@ -41,37 +41,67 @@ Proof.
 Qed.
 Print Assumptions C19_sgr_roundtrip.
 
-(* (1b) a line of styled runs: decode_line (truecolor rendering of the runs), from any clean decoder
-   state, gives the same characters, each with the visible attributes / colours (kind, value) / link of
-   the style it was printed with, and leaves the decoder clean: CSI 0 m resets, OSC 8 ;; closes the
-   link, nothing leaks onto the next run or the next line.  Any number of runs, any text without ESC
-   and the characters Text.append strips, any well-formed fresh style, any link without ESC / newline.
+(* (1b) THE ROUND TRIP.  A styled text is a list of lines, each a list of runs (text, style) -- what a
+   console writes: Console.print splits every segment at "\n" (Segment.split_and_crop_lines), so the
+   encoder closes (CSI 0 m, OSC 8 ;;) and re-opens the style on every line; a style "spanning a
+   newline" is a run with that style on each of the lines.  encode_lines = what Console._render_buffer
+   emits for these segments in truecolor (Style.render per styled segment, "\n" after each line).
 
-   FULL STATEMENT (not closed):  forall t, Forall (Forall run_ok) t -> encode_lines lid t = Ok e ->
-       exists d, snd (decode true style_null e) = Ok d /\ roundtrip_b t d = true
-   i.e. the same through AnsiDecoder.decode (str.splitlines) over several lines.  Missing: (i) that the
-   encoding of CR-free runs is CR-free (hypothesis `lacks 13 e` below; decode_line keeps only what
-   follows the last CR), (ii) the str.splitlines step (text and links additionally free of the other
-   line-boundary characters).  Both are exercised by the correspondence (decode.roundtrip: model =
-   rich on the encoded string and on the decoded lines, roundtrip_b on rich's output). *)
-Theorem C19_decode_encode_partial : forall lid runs e st,
-  lid_ok lid -> Forall run_ok runs -> encode_line lid runs = Ok e -> lacks 13 e -> clean st None ->
-  exists st' ps, decode_line true st e = (st', Ok ps) /\ vchars ps = vchars runs /\ clean st' None.
-Proof. exact decode_encode_line. Qed.
-Print Assumptions C19_decode_encode_partial.
+   For EVERY such text (any number of lines and runs; text free of ESC, of the characters Text.append
+   strips and of the str.splitlines boundaries; any well-formed fresh style; links free of ESC and
+   line boundaries) AnsiDecoder.decode (str.splitlines, then decode_line per line with the decoder
+   style carried from line to line) raises nothing and returns exactly one decoded line per printed
+   line, with
+     PRESERVED   the characters, in order, line by line; per character the attributes that are set
+                 AND true, foreground and background by (kind, number | r,g,b), the link (truthy);
+     CLEAN       the decoder state after every line (and at the end) shows nothing and has no link:
+                 nothing leaks onto the next run, the next line or a later decode call;
+     NOT PRESERVED (by design of the statement) the segmentation into runs/spans (adjacent runs that
+                 show nothing merge; a span is created per plain token), attributes that are set but
+                 False vs. unset, a colour's `name`, the link id, a falsy link "".
+   roundtrip_b is the checker evaluated on rich's own output in the correspondence. *)
+Theorem C19_decode_encode : forall lid t e st,
+  lid_ok2 lid -> Forall (Forall run_ok2) t -> encode_lines lid t = Ok e -> clean st None ->
+  exists st' d, decode true st e = (st', Ok d)
+    /\ Forall2 (fun runs ps => vchars ps = vchars runs) t d
+    /\ roundtrip_b t d = true /\ clean st' None.
+Proof.
+  intros lid t e st HL HF He Hc. destruct (decode_encode_lines lid HL t e st HF He Hc) as [st' [d [D [F C]]]].
+  exists st', d. split; [exact D|]. split; [exact F|]. split; [exact (roundtrip_of_Forall2 t d F)|exact C].
+Qed.
+Print Assumptions C19_decode_encode.
 
-(* the hypotheses are satisfiable on a non-trivial input, and the multi-line checker accepts the model's
-   own round trip of it (bold+underline red-on-indexed linked run, a plain run, a 24-bit run; two lines) *)
+(* the encoding of such a line contains no CR and no other str.splitlines boundary *)
+Theorem C19_encoding_boundary_free : forall lid runs e,
+  lid_ok2 lid -> Forall run_ok2 runs -> encode_line lid runs = Ok e -> nb_str e.
+Proof. intros lid runs e HL. exact (encode_line_nb lid HL runs e). Qed.
+Print Assumptions C19_encoding_boundary_free.
+
+(* the decoder state threads across lines for ANY stream, not only rich's own output: a first line
+   (free of line boundaries) that opens a style or a link and leaves it open hands exactly the state it
+   ends in to the decoding of the rest -- this is what makes a segment printed with an embedded "\n"
+   (crop=False, other programs' output through FileProxy) come back with its style on both lines *)
+Theorem C19_decode_state_threads : forall fx st l rest, nb_str l ->
+  decode fx st (l ++ 10 :: rest) = decode_lines fx st (l :: splitlines rest).
+Proof. exact decode_threads. Qed.
+Print Assumptions C19_decode_state_threads.
+
+(* the hypotheses are satisfiable on a non-trivial input, and the checker accepts the model's own round
+   trip of it (bold+underline red-on-indexed linked run, a plain run, a 24-bit run; two lines); a bold
+   run left open across a newline comes back bold on both lines *)
 Definition ex_style1 : style :=
   style_make (Some (mkColor (lit "red") CT_STANDARD (Some 1) None)) (Some (from_ansi 200))
              [Some true; None; None; Some true; Some false] (Some (lit "http://a;b")).
 Definition ex_style2 : style := style_make (Some (from_rgb 1 2 255)) None [None; Some true] None.
 Definition ex_text : list (list run) :=
-  [[(lit "ab", Some ex_style1); (lit " c", None); (lit "d", Some ex_style2)]; [(lit "e", Some ex_style2)]].
+  [[(lit "ab", Some ex_style1); (lit " c", None); (lit "d", Some ex_style2)]; []; [(lit "e", Some ex_style2)]].
 Example C19_decode_encode_nonvacuous :
-  lid_ok (lit "0") /\ Forall (Forall run_ok) ex_text /\
+  lid_ok2 (lit "0") /\ Forall (Forall run_ok2) ex_text /\
   match encode_lines (lit "0") ex_text with
-  | Ok e => match snd (decode true style_null e) with Ok d => roundtrip_b ex_text d | _ => false end
+  | Ok e => match snd (decode true style_null e) with
+            | Ok d => roundtrip_b ex_text d && (length d =? 3)%nat
+            | _ => false
+            end
   | _ => false
   end = true.
 Proof.
@@ -79,6 +109,15 @@ Proof.
   repeat constructor; try reflexivity; try (cbn; lia); try (intros H; discriminate H);
   try (match goal with H : s_null _ = true |- _ => vm_compute in H; discriminate H end).
 Qed.
+Example C19_open_style_spans_newline :
+  match snd (decode true style_null [27; 91; 49; 109; 97; 10; 98; 27; 91; 48; 109; 10; 99; 10]) with
+  | Ok [l1; l2; l3] =>
+      vchars_eqb (vchars l1) [(97, mkVis 1 None None None)]
+      && vchars_eqb (vchars l2) [(98, mkVis 1 None None None)]
+      && vchars_eqb (vchars l3) [(99, vis_none)]
+  | _ => false
+  end = true.
+Proof. vm_compute. reflexivity. Qed.
 
 (* ---- (2) the decoder accepts any string (repaired code) -- cited by C14 *)
 Theorem C19_decoder_total : forall st s k, snd (decode_line true st s) <> Crash k.
@@ -134,6 +173,14 @@ Example C19_proxy_cut_nonvacuous :   (* a line cut inside its escape sequence is
   snd (proxy_run true facts_fixed p_init h2) <> [] /\
   concat (snd (spec_run s_init h1)) = concat (snd (spec_run s_init h2)).
 Proof. vm_compute. repeat split; try reflexivity. discriminate. Qed.
+
+(* scope: an unterminated tail that is never flushed stays in the proxy's buffer -- the property gives
+   complete lines to write() and the partial line to flush(); Live.stop() restores sys.stdout without
+   flushing the proxy, so such a tail is dropped with it (notes/C19.md, observation O1) *)
+Example C19_unflushed_tail_stays_pending :
+  let '(st, outs) := proxy_run true facts_fixed p_init [Write (lit "ab"); Write [10; 99; 100]] in
+  length outs = 1%nat /\ pending st = lit "cd".
+Proof. vm_compute. split; reflexivity. Qed.
 
 (* a flush emits the pending partial line (decoded, markup off) and leaves nothing pending *)
 Theorem C19_flush_emits_pending : forall st,
